@@ -493,8 +493,14 @@ func c10child(seed int64) {
 		}
 		if rng.Intn(3) > 0 {
 			s.closers = 1 + rng.Intn(3)
+			same := rng.Intn(2) == 0 // all closers of this subscriber at the same instant
+			at0 := time.Duration(rng.Int63n(int64(dur)))
 			for k := 0; k < s.closers; k++ {
-				s.closeAt = append(s.closeAt, time.Duration(rng.Int63n(int64(dur))))
+				if same {
+					s.closeAt = append(s.closeAt, at0)
+				} else {
+					s.closeAt = append(s.closeAt, time.Duration(rng.Int63n(int64(dur))))
+				}
 			}
 		}
 		var opts []publisher.SubscriberOption[int]
@@ -530,35 +536,56 @@ func c10child(seed int64) {
 		pwg.Add(1)
 		go func(p int) {
 			defer pwg.Done()
-			for k := 0; !stopPub.Load(); k++ {
+			for k := 0; !stopPub.Load() && k < 400; k++ {
 				pub.Publish(p*1000000 + k + 1)
 				counts[p] = k + 1
-				if k%8 == 0 {
-					runtime.Gosched()
+				if k%4 == 0 {
+					time.Sleep(100 * time.Microsecond)
 				}
 			}
 		}(p)
 	}
 	var cwg sync.WaitGroup
 	t0 := time.Now()
+	// closers due at the same instant are released together by one gate (closed by a timer)
+	gates := map[time.Duration]chan struct{}{}
+	gate := func(at time.Duration) chan struct{} {
+		if g, ok := gates[at]; ok {
+			return g
+		}
+		g := make(chan struct{})
+		gates[at] = g
+		time.AfterFunc(time.Until(t0.Add(at)), func() { close(g) })
+		return g
+	}
 	for _, s := range subs {
 		for _, at := range s.closeAt {
 			cwg.Add(1)
+			g := gate(at)
 			go func() {
 				defer cwg.Done()
-				time.Sleep(time.Until(t0.Add(at)))
+				<-g
 				s.sub.Close()
 			}()
 		}
 	}
 	if pubClose {
 		n := 1 + rng.Intn(2)
+		at := time.Duration(rng.Int63n(int64(dur)))
+		if rng.Intn(2) == 0 {
+			for _, s := range subs { // together with some subscriber's closers
+				if len(s.closeAt) > 0 {
+					at = s.closeAt[0]
+					break
+				}
+			}
+		}
 		for k := 0; k < n; k++ {
 			cwg.Add(1)
-			at := time.Duration(rng.Int63n(int64(dur)))
+			g := gate(at)
 			go func() {
 				defer cwg.Done()
-				time.Sleep(time.Until(t0.Add(at)))
+				<-g
 				pub.Close()
 			}()
 		}
@@ -658,7 +685,7 @@ func c10child(seed int64) {
 }
 
 var panicRe = regexp.MustCompile(`(?m)^(panic: .*|fatal error: .*)$`)
-var frameRe = regexp.MustCompile(`(?m)^(github.com/rbell/toolchest/[^\s(]+)`)
+var frameRe = regexp.MustCompile(`(?m)^(github.com/rbell/toolchest/\S+)\(`)
 
 func roundC10(self string, rep *report, round int, seed int64) {
 	cmd := exec.Command(self, "-mode", "c10child", "-seed", fmt.Sprint(seed))
@@ -730,7 +757,46 @@ func main() {
 		R = *rounds
 	}
 	self, _ := os.Executable()
-	for i := 0; i < R && len(rep.Failures) == 0; i++ {
+	if *mode == "c10" {
+		// independent child processes: four at a time
+		var mu sync.Mutex
+		sem := make(chan struct{}, 4)
+		var wg sync.WaitGroup
+		for i := 0; i < R; i++ {
+			mu.Lock()
+			stop := len(rep.Failures) > 0
+			mu.Unlock()
+			if stop {
+				break
+			}
+			sem <- struct{}{}
+			wg.Add(1)
+			go func(i int) {
+				defer wg.Done()
+				defer func() { <-sem }()
+				local := &report{Histogram: map[string]int{}}
+				roundC10(self, local, i, *seed*1000003+int64(i))
+				mu.Lock()
+				rep.Failures = append(rep.Failures, local.Failures...)
+				rep.Evaluations += local.Evaluations
+				rep.Nontrivial += local.Nontrivial
+				for k, v := range local.Histogram {
+					rep.Histogram[k] += v
+				}
+				if len(rep.Samples) < 4 {
+					rep.Samples = append(rep.Samples, local.Samples...)
+				}
+				rep.Rounds++
+				mu.Unlock()
+			}(i)
+		}
+		wg.Wait()
+		if len(rep.Failures) > 1 {
+			sort.Slice(rep.Failures, func(i, j int) bool { return rep.Failures[i].Round < rep.Failures[j].Round })
+			rep.Failures = rep.Failures[:1]
+		}
+	}
+	for i := 0; *mode != "c10" && i < R && len(rep.Failures) == 0; i++ {
 		rs := *seed*1000003 + int64(i)
 		rng := rand.New(rand.NewSource(rs))
 		switch *mode {
@@ -738,8 +804,6 @@ func main() {
 			roundC06(rng, rep, i, rs)
 		case "c15":
 			roundC15(rng, rep, i, rs)
-		case "c10":
-			roundC10(self, rep, i, rs)
 		}
 		rep.Rounds++
 	}
